@@ -375,6 +375,51 @@ func (e *Engine) mutexLock(p *Value, write bool) {
 	t.vc.join(&m.vc)
 }
 
+// mutexTryLock: TryLock / TryRLock - a scheduling point, then the lock is taken
+// if it is free at that instant.
+func (e *Engine) mutexTryLock(p *Value, write bool) bool {
+	if p == nil {
+		panic(&goPanic{runtime: "invalid memory address or nil pointer dereference"})
+	}
+	m := e.mutexOf(p)
+	site := "TryLock " + e.cellDesc(p)
+	if !write {
+		site = "TryRLock " + e.cellDesc(p)
+	}
+	e.yield(site)
+	t := e.th.cur
+	if m.writer != nil || (write && len(m.readers) > 0) {
+		return false
+	}
+	// The lock is free now, but another thread may be about to take it: a critical
+	// section without scheduling points of its own is one atomic step of the
+	// exploration, so "the try falls into that critical section" is a separate
+	// decision (the other thread then runs its critical section afterwards; a
+	// race-free program cannot tell the difference).
+	desc := e.cellDesc(p)
+	for _, o := range e.th.all {
+		if o == t || o.done || o.blocked != nil {
+			continue
+		}
+		if o.site == "Lock "+desc || (write && o.site == "RLock "+desc) {
+			k := e.choose(2, func(int) *Term { return e.st.True }, false)
+			e.recordChoice("select", k)
+			if k == 1 {
+				return false
+			}
+			break
+		}
+	}
+	if write {
+		m.writer = t
+		t.vc.join(&m.rvc)
+	} else {
+		m.readers[t]++
+	}
+	t.vc.join(&m.vc)
+	return true
+}
+
 func (e *Engine) mutexUnlock(p *Value, write bool) {
 	m := e.mutexOf(p)
 	t := e.th.cur
